@@ -1,6 +1,6 @@
 (* C06 — from_repr(d) is Some(V) iff d is the discriminant rustc gives enabled variant V.
    Only statements, `exact`, pins and assumption audits live here. *)
-Require Import Strum.Model.Repr Strum.Proofs.ReprP.
+Require Import Strum.Model.Repr Strum.Model.ReprProg Strum.Proofs.ReprP Strum.Proofs.ReprProgP.
 Open Scope Z_scope.
 
 (* For every item on which the FromRepr generator succeeds, every rustc-accepted numbering
@@ -41,6 +41,24 @@ Theorem C06_total : forall it,
   exists c, gen_from_repr it = Ok c.
 Proof. exact gen_from_repr_total. Qed.
 
+(* The body the macro EMITS — `const <V>_DISCRIMINANT: T = 0 | <PREV>_DISCRIMINANT + 1 | <own expression>;` per DECLARED
+   variant and one guarded arm per ENABLED variant, as a deep-embedded program (Model/ReprProg.v) that is compared with the
+   REAL expansion on every run — is accepted by the compiler whenever the model accepts the item, its constants evaluate
+   (in the discriminant type, overflow = compile error) to rustc's numbering of ALL declared variants, and running it is
+   run_from_repr, about which the theorems above speak. *)
+Theorem C06_program : forall it c, gen_from_repr it = Ok c ->
+  exists p, gen_repr_prog it = Ok p /\ rp_ty p = fr_ty c /\ rp_const_fn p = fr_const c /\
+            length (rp_consts p) = length (i_variants it) /\
+            eval_chain (rp_ty p) None (rp_consts p) = Some (rustc_discr (i_variants it)) /\
+            forall x, run_repr_prog p x = Some (run_from_repr c x).
+Proof. exact C06_program_proof. Qed.
+
+(* conversely every emitted program that compiles is covered by the model: the theorems speak about every from_repr that exists *)
+Theorem C06_program_complete : forall it p env,
+  gen_repr_prog it = Ok p -> eval_chain (rp_ty p) None (rp_consts p) = Some env ->
+  exists c, gen_from_repr it = Ok c.
+Proof. exact C06_program_complete_proof. Qed.
+
 (* non-vacuity: enum E { X, #[strum(disabled)] Y(u8), Z = -3, W } under #[repr(i8)] *)
 Definition ex_variant id fs ms d := {| v_ident := s_ id; v_fields := fs; v_metas := ms; v_discr := d; v_dmetas := [] |}.
 Definition ex_field := {| f_name := []; f_ty := s_ "u8"; f_is_ref := false; f_dw := [] |}.
@@ -51,11 +69,15 @@ Definition ex_item := {| i_kind := KEnum; i_ident := s_ "E"; i_lifetimes := 0; i
 Example C06_nonvacuous :
   exists c, gen_from_repr ex_item = Ok c /\ NoDup (rustc_discr (i_variants ex_item)) /\
             rustc_discr (i_variants ex_item) = [0; 1; -3; -2] /\
-            map (run_from_repr c) [0; 1; -3; -2; 2] = [Some (0, 0); None; Some (2, 0); Some (3, 0); None]%nat.
+            map (run_from_repr c) [0; 1; -3; -2; 2] = [Some (0, 0); None; Some (2, 0); Some (3, 0); None]%nat /\
+            (exists p, gen_repr_prog ex_item = Ok p /\ rp_consts p = [CZero; CPrevPlus1; COwn (-3); CPrevPlus1] /\
+                       map pa_variant (rp_arms p) = [0; 2; 3]%nat /\
+                       map (run_repr_prog p) [0; 1; -3] = [Some (Some (0, 0)); Some None; Some (Some (2, 0))]%nat).
 Proof.
   eexists. split; [vm_compute; reflexivity|]. split.
   - vm_compute. repeat constructor; cbn; intuition discriminate.
-  - split; vm_compute; reflexivity.
+  - split; [vm_compute; reflexivity|]. split; [vm_compute; reflexivity|].
+    eexists. split; [vm_compute; reflexivity|]. repeat split; vm_compute; reflexivity.
 Qed.
 
 Check C06_iff : forall it c, gen_from_repr it = Ok c -> NoDup (rustc_discr (i_variants it)) ->
@@ -67,4 +89,6 @@ Print Assumptions C06_none.
 Print Assumptions C06_roundtrip.
 Print Assumptions C06_const.
 Print Assumptions C06_total.
+Print Assumptions C06_program.
+Print Assumptions C06_program_complete.
 Print Assumptions C06_nonvacuous.
